@@ -479,6 +479,65 @@ for prop, items in api.items():
     for name, body in items:
         probe(prop, "probe-api", f"probe_api_{prop.lower()}_{name}", body, toplevel=API_TOP)
 
+# ------------------------------------------------------------------ zero-sized elements: a length is still a length
+# (size arguments cannot tell [(); 3] from [(); 5]: every length-checked conversion must still be a type error)
+ZTOP = "#[derive(Clone, Copy, Debug, PartialEq, PartialOrd, Default)] struct Permit;\n"
+for el, lit in (("()", "()"), ("Permit", "Permit")):
+    t = "unit" if el == "()" else "permit"
+    pair("zst-len", f"zst_{t}_into_array", f"let a: GenericArray<{el}, U3> = arr![{lit}, {lit}, {lit}]; let _: [{el}; 3] = a.into_array();",
+         [f"let a: GenericArray<{el}, U3> = arr![{lit}, {lit}, {lit}]; let _: [{el}; 5] = a.into_array();",
+          f"let a: GenericArray<{el}, U3> = arr![{lit}, {lit}, {lit}]; let _: [{el}; 0] = a.into_array();",
+          f"let a: GenericArray<{el}, U0> = arr![]; let _: [{el}; 1] = a.into_array();"], "Lk", toplevel=ZTOP)
+    pair("zst-len", f"zst_{t}_from_array", f"let _: GenericArray<{el}, U2> = GenericArray::from_array([{lit}, {lit}]);",
+         [f"let _: GenericArray<{el}, U3> = GenericArray::from_array([{lit}, {lit}]);", f"let _: GenericArray<{el}, U0> = GenericArray::from_array([{lit}, {lit}]);"], "Lk", toplevel=ZTOP)
+    pair("zst-len", f"zst_{t}_from_into", f"let a: GenericArray<{el}, U2> = [{lit}, {lit}].into(); let _: [{el}; 2] = a.into();",
+         [f"let a: GenericArray<{el}, U2> = [{lit}, {lit}].into(); let _: [{el}; 3] = a.into();", f"let _: GenericArray<{el}, U4> = [{lit}, {lit}].into();"], "Lk", toplevel=ZTOP)
+    pair("zst-len", f"zst_{t}_refs", f"let mut a: GenericArray<{el}, U2> = arr![{lit}, {lit}]; {{ let _: &[{el}; 2] = a.as_ref(); }} {{ let _: &mut [{el}; 2] = a.as_mut(); }} let n = [{lit}, {lit}]; let _: &GenericArray<{el}, U2> = (&n).into();",
+         [f"let a: GenericArray<{el}, U2> = arr![{lit}, {lit}]; let _: &[{el}; 7] = a.as_ref();", f"let mut a: GenericArray<{el}, U2> = arr![{lit}, {lit}]; let _: &mut [{el}; 1] = a.as_mut();",
+          f"let n = [{lit}, {lit}]; let _: &GenericArray<{el}, U3> = (&n).into();"], "Lk", toplevel=ZTOP)
+    pair("zst-len", f"zst_{t}_zip_eq", f"let (a, b): (GenericArray<{el}, U2>, GenericArray<{el}, U2>) = (arr![{lit}, {lit}], arr![{lit}, {lit}]); let _ = a == b; let _ = a.zip(b, |_, _| 0u8);",
+         [f"let (a, b): (GenericArray<{el}, U2>, GenericArray<{el}, U3>) = (arr![{lit}, {lit}], arr![{lit}, {lit}, {lit}]); let _ = a == b;",
+          f"let (a, b): (GenericArray<{el}, U2>, GenericArray<{el}, U3>) = (arr![{lit}, {lit}], arr![{lit}, {lit}, {lit}]); let _ = a.zip(b, |_, _| 0u8);"], "Lk", toplevel=ZTOP)
+    pair("zst-len", f"zst_{t}_chunks", f"let n = [[{lit}; 2]; 3]; let g: &[GenericArray<{el}, U2>] = GenericArray::from_chunks(&n); let _: &[[{el}; 2]] = GenericArray::into_chunks(g);",
+         [f"let n = [[{lit}; 2]; 3]; let _: &[GenericArray<{el}, U3>] = GenericArray::from_chunks(&n);", f"let n = [[{lit}; 2]; 3]; let g: &[GenericArray<{el}, U2>] = GenericArray::from_chunks(&n); let _: &[[{el}; 4]] = GenericArray::into_chunks(g);"], "Lk", toplevel=ZTOP)
+    pair("zst-len", f"zst_{t}_tuple", f"let a: GenericArray<{el}, U2> = ({lit}, {lit}).into(); let _: ({el}, {el}) = a.into();",
+         [f"let _: GenericArray<{el}, U3> = ({lit}, {lit}).into();", f"let a: GenericArray<{el}, U3> = arr![{lit}, {lit}, {lit}]; let _: ({el}, {el}) = a.into();"], "Lk", toplevel=ZTOP)
+    pair("zst-len", f"zst_{t}_seqops", f"let a: GenericArray<{el}, U3> = arr![{lit}, {lit}, {lit}]; let (_h, _t): (GenericArray<{el}, U1>, GenericArray<{el}, U2>) = a.split(); let f: GenericArray<{el}, U4> = arr![arr![{lit}, {lit}], arr![{lit}, {lit}]].flatten(); let _: GenericArray<GenericArray<{el}, U2>, U2> = f.unflatten();",
+         [f"let a: GenericArray<{el}, U3> = arr![{lit}, {lit}, {lit}]; let (_h, _t): (GenericArray<{el}, U1>, GenericArray<{el}, U3>) = a.split();",
+          f"let _: GenericArray<{el}, U5> = arr![arr![{lit}, {lit}], arr![{lit}, {lit}]].flatten();",
+          f"let f: GenericArray<{el}, U4> = arr![{lit}, {lit}, {lit}, {lit}]; let _: GenericArray<GenericArray<{el}, U2>, U3> = f.unflatten();",
+          f"let e: GenericArray<{el}, U0> = arr![]; let _ = e.pop_back();"], "Lk", toplevel=ZTOP)
+
+# ------------------------------------------------------------------ a mutable view needs a mutable source
+# (every API that hands out `&mut` must ask for `&mut`: given a shared reference the program is a type error, so
+# no mutable view of memory the caller only shared can exist in safe code)
+pair("mut-from-shared", "mfs_from_mut_slice", "let mut v = [1, 2, 3]; let _: &mut GenericArray<i32, U3> = GenericArray::from_mut_slice(&mut v);",
+     ["let v = [1, 2, 3]; let _: &mut GenericArray<i32, U3> = GenericArray::from_mut_slice(&v);", "let v = [1, 2, 3]; let _: &mut GenericArray<i32, U3> = GenericArray::from_mut_slice(&v[..]);"], "Lk")
+pair("mut-from-shared", "mfs_try_from_mut_slice", "let mut v = [1, 2, 3]; let _: &mut GenericArray<i32, U3> = GenericArray::try_from_mut_slice(&mut v).unwrap();",
+     "let v = [1, 2, 3]; let _: &mut GenericArray<i32, U3> = GenericArray::try_from_mut_slice(&v[..]).unwrap();", "Lk")
+pair("mut-from-shared", "mfs_tryfrom_trait", "let mut v = [1, 2, 3]; let _: &mut GenericArray<i32, U3> = <&mut GenericArray<i32, U3>>::try_from(&mut v[..]).unwrap();",
+     "let v = [1, 2, 3]; let _: &mut GenericArray<i32, U3> = <&mut GenericArray<i32, U3>>::try_from(&v[..]).unwrap();", "Lk")
+pair("mut-from-shared", "mfs_chunks_from_slice_mut", "let mut v = [1, 2, 3, 4, 5]; let (_c, _r): (&mut [GenericArray<i32, U2>], &mut [i32]) = GenericArray::chunks_from_slice_mut(&mut v);",
+     ["let v = [1, 2, 3, 4, 5]; let (_c, _r): (&mut [GenericArray<i32, U2>], &mut [i32]) = GenericArray::chunks_from_slice_mut(&v);",
+      "let v = [1, 2, 3, 4, 5]; let (_c, _r) = GenericArray::<i32, U2>::chunks_from_slice_mut(&v[..]);"], "Lk")
+pair("mut-from-shared", "mfs_slice_from_chunks_mut", "let mut c = [arr![1, 2], arr![3, 4]]; let _: &mut [i32] = GenericArray::slice_from_chunks_mut(&mut c);",
+     ["let c = [arr![1, 2], arr![3, 4]]; let _: &mut [i32] = GenericArray::slice_from_chunks_mut(&c);", "let c = [arr![1, 2], arr![3, 4]]; let _ = GenericArray::<i32, U2>::slice_from_chunks_mut(&c[..]);"], "Lk")
+pair("mut-from-shared", "mfs_from_chunks_mut", "let mut n = [[1, 2], [3, 4]]; let _: &mut [GenericArray<i32, U2>] = GenericArray::from_chunks_mut(&mut n);",
+     ["let n = [[1, 2], [3, 4]]; let _: &mut [GenericArray<i32, U2>] = GenericArray::from_chunks_mut(&n);", "let n = [[1, 2], [3, 4]]; let _ = GenericArray::<i32, U2>::from_chunks_mut(&n[..]);",
+      "let n = [[1, 2], [3, 4]]; let x = GenericArray::<i32, U2>::from_chunks_mut(&n); let y = GenericArray::<i32, U2>::from_chunks_mut(&n); x[0][0] = 7; y[0][0] = 8;"], "Lk")
+pair("mut-from-shared", "mfs_into_chunks_mut", "let mut c = [arr![1, 2], arr![3, 4]]; let _: &mut [[i32; 2]] = GenericArray::into_chunks_mut(&mut c);",
+     ["let c = [arr![1, 2], arr![3, 4]]; let _: &mut [[i32; 2]] = GenericArray::into_chunks_mut(&c);", "let c = [arr![1, 2], arr![3, 4]]; let _ = GenericArray::<i32, U2>::into_chunks_mut::<2>(&c[..]);"], "Lk")
+pair("mut-from-shared", "mfs_from_mut_native", "let mut n = [1, 2, 3]; let _: &mut GenericArray<i32, U3> = (&mut n).into();", "let n = [1, 2, 3]; let _: &mut GenericArray<i32, U3> = (&n).into();", "Lk")
+pair("mut-from-shared", "mfs_split", "let mut a = arr![1, 2, 3]; let (_h, _t): (&mut GenericArray<i32, U1>, &mut GenericArray<i32, U2>) = (&mut a).split();",
+     "let a = arr![1, 2, 3]; let (_h, _t): (&mut GenericArray<i32, U1>, &mut GenericArray<i32, U2>) = (&a).split();", "Lk")
+pair("mut-from-shared", "mfs_flatten", "let mut a = arr![arr![1, 2], arr![3, 4]]; let _: &mut GenericArray<i32, U4> = (&mut a).flatten();",
+     "let a = arr![arr![1, 2], arr![3, 4]]; let _: &mut GenericArray<i32, U4> = (&a).flatten();", "Lk")
+pair("mut-from-shared", "mfs_unflatten", "let mut a = arr![1, 2, 3, 4]; let _: &mut GenericArray<GenericArray<i32, U2>, U2> = (&mut a).unflatten();",
+     "let a = arr![1, 2, 3, 4]; let _: &mut GenericArray<GenericArray<i32, U2>, U2> = (&a).unflatten();", "Lk")
+pair("mut-from-shared", "mfs_iter_mut", "let mut a = arr![1, 2, 3]; for x in &mut a { *x += 1; }", "let a = arr![1, 2, 3]; for x in &a { *x += 1; }", "Bw")
+pair("mut-from-shared", "mfs_as_mut_slice", "let mut a = arr![1, 2, 3]; a.as_mut_slice()[0] = 9;", "let a = arr![1, 2, 3]; a.as_mut_slice()[0] = 9;", "Bw")
+pair("mut-from-shared", "mfs_map_mut", "let mut a = arr![1, 2, 3]; let _ = (&mut a).map(|x| { *x += 1; });", "let a = arr![1, 2, 3]; let _ = (&a).map(|x| { *x += 1; });", "Bw")
+
 # ------------------------------------------------------------------ write out
 if os.path.isdir(BIN):
     shutil.rmtree(BIN)
